@@ -435,6 +435,15 @@ func main() {
 			return ok && str(r.X) == "f.deferred"
 		}); n != nil {
 			deferCall = callKind(n)
+			// since fix 215471a the loop runs each deferred call through the helper runDeferred (own recover)
+			if deferCall == ".unrecognised" && find(n, func(n ast.Node) bool {
+				ce, ok := n.(*ast.CallExpr)
+				return ok && str(ce.Fun) == "runDeferred"
+			}) != nil {
+				if rd := common.FindFunc(f, "", "runDeferred"); rd != nil {
+					deferCall = callKind(rd)
+				}
+			}
 		}
 		for what, v := range map[string]string{"callFn": callOther, "callFn on aCallSlice": callEll, "deferred call": deferCall} {
 			if v == ".unrecognised" {
